@@ -869,7 +869,7 @@ pub fn probes(c: &mut Collector) {
     let o = Outer { id: 1, color: Srgba::new(0.1f32, 0.25, 0.5, 0.75) };
     let s = serde_json::to_string(&o).unwrap_or_default();
     let plain = pv::catch(|| serde_json::from_str::<Outer<Srgba>>(&s).map(|y| y.color.bits()).map_err(|e| e.to_string()));
-    let opt = pv::catch(|| serde_json::from_str::<OuterOpt<Srgb, f32>>(&s).map(|y| y.color.bits()).map_err(|e| e.to_string()));
+    let opt = pv::catch(|| serde_json::from_str::<OuterOpt<Srgb>>(&s).map(|y| y.color.bits()).map_err(|e| e.to_string()));
     let opaque_ctl = serde_json::to_string(&Outer { id: 1, color: Srgb::new(0.1f32, 0.25, 0.5) }).ok().and_then(|s| serde_json::from_str::<Outer<Srgb>>(&s).ok()).map(|y| y.color.bits() == Srgb::new(0.1f32, 0.25, 0.5).bits());
     c.note(
         "observation/documented-limitation/alpha-colour-flattened-into-outer-struct",
